@@ -1039,3 +1039,71 @@ Qed.
    registration left on its token (also used for C04/A4) *)
 Theorem run_events_ok e pre script : Forall (xok e) (r_tr (exec e pre script)).
 Proof. exact (proj2 (exec_q e pre script)). Qed.
+
+(* ---- the same, spelled out along the path: "innermost enclosing override wins" ---------------------- *)
+Inductive frame := FUn (k : ukind) | FBin (k : bkind).
+(* frames from the root down to an occurrence of leaf id *)
+Inductive path_to : sexpr -> nat -> list frame -> Prop :=
+| pt_leaf id : path_to (Leaf id) id []
+| pt_leafn id : path_to (LeafN id) id []
+| pt_un k s id p : path_to s id p -> path_to (Un k s) id (FUn k :: p)
+| pt_bin_a k a b id p : path_to a id p -> path_to (Bin k a b) id (FBin k :: p)
+| pt_bin_b k a b id p : path_to b id p -> path_to (Bin k a b) id (FBin k :: p).
+
+(* walking outwards from the leaf (innermost frame first); d = the root receiver's answer *)
+Fixpoint inner_q0 (q : list frame) (d : Z) : Z :=
+  match q with
+  | [] => d
+  | FUn (UWithQ O v) :: _ => v
+  | _ :: q' => inner_q0 q' d
+  end.
+Fixpoint inner_q1 (q : list frame) (d : Z) : Z :=
+  match q with
+  | [] => d
+  | FUn (UWithQ (S _) v) :: _ => v
+  | _ :: q' => inner_q1 q' d
+  end.
+(* stop_possible: the nearest enclosing unstoppable / when_all / stop_when decides *)
+Fixpoint inner_sp (q : list frame) (d : bool) : bool :=
+  match q with
+  | [] => d
+  | FUn UUnstoppable :: _ => false
+  | FBin k :: q' => if is_seq k then inner_sp q' d else true
+  | _ :: q' => inner_sp q' d
+  end.
+
+Definition frame_sum (f : frame) (sm : qsum) : qsum :=
+  match f with FUn k => un_sum k sm | FBin k => bin_sum k sm end.
+
+Lemma sees_path e sm id x :
+  sees e sm id x -> exists p, path_to e id p /\ x = fold_left (fun s f => frame_sum f s) p sm.
+Proof.
+  induction 1 as [id sm|id sm|k s sm id x _ (p & P & E)|k a b sm id x _ (p & P & E)|k a b sm id x _ (p & P & E)].
+  - exists []. split; [constructor|reflexivity].
+  - exists []. split; [constructor|reflexivity].
+  - exists (FUn k :: p). split; [constructor; exact P|exact E].
+  - exists (FBin k :: p). split; [apply pt_bin_a; exact P|exact E].
+  - exists (FBin k :: p). split; [apply pt_bin_b; exact P|exact E].
+Qed.
+
+Lemma fold_inner p : forall sm,
+  fold_left (fun s f => frame_sum f s) p sm =
+  (inner_q0 (rev p) (fst (fst sm)), inner_q1 (rev p) (snd (fst sm)), inner_sp (rev p) (snd sm)).
+Proof.
+  induction p as [|f p IH] using rev_ind; intros sm.
+  - destruct sm as [[a b] c]. reflexivity.
+  - rewrite fold_left_app, rev_app_distr. simpl. rewrite IH.
+    destruct f as [k|k]; simpl.
+    + destruct k; try reflexivity. destruct q; reflexivity.
+    + unfold bin_sum. destruct (is_seq k); reflexivity.
+Qed.
+
+Theorem queries_innermost e pre script id st sp a b :
+  In (XT (TLeafStart id st sp a b)) (r_tr (exec e pre script)) ->
+  exists p, path_to e id p /\
+    a = inner_q0 (rev p) 0 /\ b = inner_q1 (rev p) 0 /\ sp = inner_sp (rev p) true.
+Proof.
+  intros H. apply queries_sees in H. destruct H as [H _].
+  apply sees_path in H. destruct H as (p & P & E). exists p. split; [exact P|].
+  rewrite fold_inner in E. simpl in E. inversion E. auto.
+Qed.
